@@ -42,6 +42,8 @@ def shards(tier, seed):
             out.append(dict(kind="sidecar", n=60, stream=(k, i), version=VERSIONS[i % 2]))
         for i in range(4):
             out.append(dict(kind="table", n=50, stream=(k, i), version=VERSIONS[i % 2]))
+        for i in range(4):
+            out.append(dict(kind="sheet", n=60, stream=(k, i), version=VERSIONS[i % 2]))
         for i in range(2):
             out.append(dict(kind="dataset", n=6, stream=(k, i)))
     return out
@@ -94,6 +96,10 @@ def check_issue(i, rec, case):
             tag = i.get("source_tag")
             if isinstance(tag, (HedTag, HedGroup)):
                 s, e = hs._get_org_span(tag)
+                if s is not None and isinstance(tag, HedTag) and not tag._tag and text[s:e] != tag.org_tag:
+                    rec.violation("the span reported for the named tag does not hold the tag's text",
+                                  dict(case, code=i["code"], span=[s, e], tag=tag.org_tag))
+                    return False
                 if s is None or not (s <= ci <= cie <= e):
                     rec.violation("character offsets lie outside the span of the tag the issue names",
                                   dict(case, code=i["code"], ci=ci, cie=cie, span=[s, e]))
@@ -311,6 +317,56 @@ def run_table(shard, rec):
         check_lists(lists[0], lists[1], rec, case)
 
 
+def run_sheet(shard, rec):
+    """Spreadsheets with 2-5 tag columns (with and without header): row-level issues that name tags of later columns."""
+    from hed.models.spreadsheet_input import SpreadsheetInput
+    from hed.errors.error_reporter import ErrorHandler
+    rng = rec.rng
+    v = shard["version"]
+    schema = env.schema(v)
+    gen = annot.AnnotGen(schema_xml.load(v), rng)
+    for k in range(shard["n"]):
+        gen.used = set()
+        ncols = rng.randrange(2, 6)
+        header = rng.random() < 0.5
+        rows = []
+        try:
+            for _ in range(rng.randrange(1, 5)):
+                cells = [annot.render(gen.annotation(depth=2, temporal=False, size=rng.randrange(1, 3), reset=False), rng)
+                         for _ in range(ncols)]
+                q = rng.random()
+                j = rng.randrange(1, ncols)                       # the fault sits in a later column
+                if q < 0.4:
+                    src = gen._plain_atom()
+                    t = annot.render([src], None)
+                    cells[rng.randrange(0, j)] += ", " + t
+                    cells[j] += ", " + t                          # repeated across columns (row-level issue)
+                elif q < 0.6:
+                    cells[j] += ", Def-expand/Nodef"              # tag-group tag outside a group
+                elif q < 0.75:
+                    cells[j] = "n/a"
+                elif q < 0.85:
+                    cells[j] += ", (Onset)" if "Onset" in gen.top else ", ()"
+                rows.append(cells)
+        except RuntimeError:
+            rec.discard()
+            continue
+        text = ("\t".join(f"col{c}" for c in range(ncols)) + "\n" if header else "") + \
+            "\n".join("\t".join(r) for r in rows) + "\n"
+        case = dict(entry="sheet", version=v, header=header, ncols=ncols, text=text)
+        lists = []
+        try:
+            for warn in (True, False):
+                cols = [f"col{c}" for c in range(ncols)] if header else list(range(ncols))
+                obj = SpreadsheetInput(io.StringIO(text), file_type=".tsv", has_column_names=header, tag_columns=cols)
+                lists.append(obj.validate(schema, name="sheet.tsv", error_handler=ErrorHandler(check_for_warnings=warn)))
+        except Exception as ex:  # noqa
+            rec.violation(f"spreadsheet validation raised {type(ex).__name__}", case)
+            continue
+        rec.case(text, nontrivial=bool(lists[0]))
+        check_lists(lists[0], lists[1], rec, case)
+
+
 def run_dataset(shard, rec):
     from hed.tools.bids.bids_dataset import BidsDataset
     rng = rec.rng
@@ -340,7 +396,8 @@ def run_dataset(shard, rec):
 def run_shard(shard, rec):
     install_counter()
     rec.rng.seed(f"c12-{shard['kind']}-{shard['stream']}-{rec.rng.random()}")
-    {"string": run_string, "sidecar": run_sidecar, "table": run_table, "dataset": run_dataset}[shard["kind"]](shard, rec)
+    {"string": run_string, "sidecar": run_sidecar, "table": run_table, "dataset": run_dataset,
+     "sheet": run_sheet}[shard["kind"]](shard, rec)
     rec.count("entry-point", shard["kind"], shard["n"])
     rec.count("decorations-total", "n", _decorations["n"])
 
@@ -375,6 +432,12 @@ def replay(case, rec):
         for warn in (True, False):
             lists.append(c07.build_input(case).validate(schema, extra_def_dicts=dd, name="events.tsv",
                                                         error_handler=ErrorHandler(warn)))
+    elif e == "sheet":
+        from hed.models.spreadsheet_input import SpreadsheetInput
+        cols = [f"col{c}" for c in range(case["ncols"])] if case["header"] else list(range(case["ncols"]))
+        for warn in (True, False):
+            obj = SpreadsheetInput(io.StringIO(case["text"]), file_type=".tsv", has_column_names=case["header"], tag_columns=cols)
+            lists.append(obj.validate(env.schema(case["version"]), name="sheet.tsv", error_handler=ErrorHandler(warn)))
     elif e == "dataset":
         from hed.tools.bids.bids_dataset import BidsDataset
         root = os.path.join(env.scratch(), f"c12ds-{os.getpid()}")
